@@ -66,7 +66,7 @@ Fixpoint zipadd (a b : list Z) : list Z :=
   | x :: a', y :: b' => (x + y) :: zipadd a' b'
   end.
 Fixpoint pascal_row (n : nat) : list Z :=
-  match n with O => [1] | S m => zipadd (0 :: pascal_row m) (pascal_row m) end.
+  match n with O => [1] | S m => let r := pascal_row m in zipadd (0 :: r) r end.
 Definition binom_nat (n k : nat) : Z := nth k (pascal_row n) 0.
 Definition binomial (n k : Z) : Z :=
   if (n <? 0) || (k <? 0) then 0 else binom_nat (Z.to_nat n) (Z.to_nat k).
